@@ -349,6 +349,24 @@ impl<L: Language, N: Analysis<L>> EGraph<L, N> {
 
         let mut out = Vec::new();
 
+        // verif: optionally skip the fast path below (it is a pure optimisation); this is a
+        // copy of the general path at the end of this function.
+        #[cfg(slotted_egraphs_verif)]
+        if crate::verif::buggify(crate::verif::BUGGIFY_NO_TRIVIAL_GROUP_FASTPATH) {
+            let groups: Vec<Vec<ProvenPerm>> = enode
+                .elem
+                .applied_id_occurrences()
+                .iter()
+                .map(|x| self.classes[&x.id].group.all_perms().into_iter().collect())
+                .collect();
+            for l in cartesian(&groups) {
+                let pn = enode.clone();
+                let pn = self.chain_pn_map(&pn, |i, pai| self.chain_pai_pp(&pai, l[i]));
+                out.push(pn);
+            }
+            return out;
+        }
+
         // early-return, if groups are all trivial.
         if enode
             .elem
